@@ -241,6 +241,9 @@ impl Database {
 
         let memory_budget = Arc::new(MemoryBudget::auto_detect());
         let recovery_available = memory_budget.available(Pool::Recovery);
+        #[cfg(kahflane_turdb_verif)]
+        let recovery_available = crate::verif_hooks::knob("recovery_available")
+            .map_or(recovery_available, |v| v as usize);
 
         let estimate = Self::estimate_recovery_cost(&wal_dir)?;
 
